@@ -131,6 +131,12 @@ def shard(seed, idx, n, tier):
     rng = core.rng_for(seed, "c05", idx)
     for _ in range(n):
         one_case(rng, res)
+    if idx < 6 and W.gpg_available():
+        # a step that asks for two functionaries and gets: two agreeing links of ONE gpg functionary (two of its subkeys)
+        # and a link another functionary recorded for another step (family shared with C08) - one functionary, not two
+        from harness.props import c08
+        c08.one_case(core.rng_for(seed, "c08-shared", idx), res, force="replay_plus_two_subkey_links" if idx % 2 == 0 else "double_replay")
+        res.count("family_replay_and_subkeys")
     return res
 
 
